@@ -629,3 +629,76 @@ Proof.
   unfold wf_line, word, blank, dashes, starts, ends, clean, not_pad. cbn.
   repeat split; repeat constructor; auto.
 Qed.
+
+(* ==== the action list: parse_action<k> returns the k-th comma separated action, trimmed ==== *)
+Local Open Scope N_scope.
+Lemma comma_free_hasb p : comma_free p -> hasb c_comma p = false.
+Proof.
+  unfold comma_free. induction p as [|x p IH]; cbn [count_char hasb]; intros H; [reflexivity|].
+  rewrite Nat.eqb_sym. destruct (Nat.eqb x c_comma); [discriminate|]. cbn [orb]. apply IH. exact H.
+Qed.
+
+Lemma find_from_app c pre s : find_from [c] (pre ++ s) (size pre) = find_at [c] s (size pre).
+Proof.
+  unfold find_from. autorewrite with sz.
+  replace (size pre + size s <? size pre) with false by (symmetry; apply N.ltb_ge; lia).
+  replace (N.to_nat (size pre)) with (length pre) by (unfold size; lia). rewrite skipn_app_exact. reflexivity.
+Qed.
+
+Section Actions.
+Variables (b w b' : str).
+Hypothesis (Bb : blank b) (Bb' : blank b') (Sw : starts w) (Ew : ends w).
+
+Lemma parse_action_loop_exact : forall parts pre fuel cpt k,
+  nth_error parts k = Some (b ++ w ++ b') -> Forall comma_free parts -> (length parts <= fuel)%nat ->
+  size (pre ++ join_commas parts) < npos ->
+  parse_action_loop fuel (pre ++ join_commas parts) (size pre) cpt (cpt + k) = w.
+Proof.
+  pose proof npos_val as Hn. pose proof W_val as HW.
+  induction parts as [|p rest IH]; intros pre fuel cpt k Hk Hcf Hfuel Hsz; [destruct k; discriminate|].
+  inversion Hcf as [|? ? Hp Hrest]; subst. pose proof (comma_free_hasb p Hp) as Hpc.
+  destruct fuel as [|f]; [cbn in Hfuel; lia|]. cbn [parse_action_loop].
+  destruct rest as [|q rest'].
+  - (* the last part *)
+    cbn [join_commas] in *. rewrite find_from_app, find_at1_none by exact Hpc.
+    destruct k as [|k]; [|destruct k; discriminate]. cbn in Hk. inversion Hk; subst p.
+    rewrite Nat.add_0_r, Nat.eqb_refl.
+    autorewrite with sz in Hsz.
+    rewrite (substr_rest _ pre (b ++ w ++ b')) by (try reflexivity; autorewrite with sz; rewrite wsub_small by lia; lia).
+    apply cleanup_tok; auto using blank_pad. autorewrite with sz. lia.
+  - change (join_commas (p :: q :: rest')) with (p ++ c_comma :: join_commas (q :: rest')) in *.
+    assert (Epos : find_from [c_comma] (pre ++ p ++ c_comma :: join_commas (q :: rest')) (size pre) = size pre + size p).
+    { rewrite find_from_app, find_at1_skip by exact Hpc. apply find_at1_here. }
+    rewrite Epos. autorewrite with sz in Hsz.
+    destruct k as [|k].
+    + cbn in Hk. inversion Hk; subst p. rewrite Nat.add_0_r, Nat.eqb_refl.
+      rewrite wsub_small by lia.
+      rewrite (substr_split _ pre (b ++ w ++ b') (c_comma :: join_commas (q :: rest'))) by (try reflexivity; lia).
+      apply cleanup_tok; auto using blank_pad. autorewrite with sz in *. lia.
+    + replace (Nat.eqb cpt (cpt + S k)) with false by (symmetry; apply Nat.eqb_neq; lia).
+      replace (size pre + size p =? npos) with false by (symmetry; apply N.eqb_neq; lia).
+      rewrite wadd_small by lia.
+      replace (pre ++ p ++ c_comma :: join_commas (q :: rest')) with ((pre ++ p ++ [c_comma]) ++ join_commas (q :: rest')) by la.
+      replace (size pre + size p + 1) with (size (pre ++ p ++ [c_comma])) by (autorewrite with sz; lia).
+      replace (cpt + S k)%nat with (S cpt + k)%nat by lia.
+      apply IH; auto.
+      * cbn [length] in *. lia.
+      * autorewrite with sz. lia.
+Qed.
+End Actions.
+
+Theorem parse_action_exact parts k b w b' :
+  nth_error parts k = Some (b ++ w ++ b') -> blank b -> blank b' -> starts w -> ends w ->
+  Forall comma_free parts -> size (join_commas parts) < npos ->
+  parse_action k (join_commas parts) = w.
+Proof.
+  intros Hk Bb Bb' Sw Ew Hcf Hsz. unfold parse_action.
+  change (join_commas parts) with ([] ++ join_commas parts) at 2. change 0 with (size []).
+  change k with (0 + k)%nat at 1.
+  apply (parse_action_loop_exact b w b' Bb Bb' Sw Ew parts [] _ 0%nat k Hk Hcf); [|exact Hsz].
+  (* the fuel of the transcription (one more than the length of the text) covers the number of parts *)
+  clear -Hcf. assert (G : forall ps, (length ps <= S (length (join_commas ps)))%nat).
+  { induction ps as [|p ps IH]; [cbn; lia|]. destruct ps as [|q r]; [cbn; lia|].
+    rewrite join_commas_cons, app_length. cbn [length] in *. lia. }
+  apply G.
+Qed.
